@@ -11,7 +11,7 @@ import math
 import numpy as np
 from scipy import sparse as sp
 
-from checks.common import comps, hash_tag, to_sparse
+from checks.common import comps, hash_tag, to_sparse, relayout, xf_build, xf_names
 from qmc import gen as G
 from qmc import oracle as O
 from qmc.loader import load
@@ -78,6 +78,8 @@ def cases(tier, seed):
         out.append({"key": f"large/{m}x{n}", "grp": "large", "m": m, "n": n})
     for m, n in ((2, 2), (2, 3), (3, 2), (3, 3)):
         out.append({"key": f"compmask/{m}x{n}", "grp": "compmask", "m": m, "n": n})
+    for m, n in itertools.product(range(1, 5), repeat=2):
+        out.append({"key": f"xf/{m}x{n}", "grp": "xf", "m": m, "n": n})
     return out
 
 
@@ -231,7 +233,7 @@ def run_case(case, seed):
                     for key in ("fro", "1", "inf", "2"):
                         if not nabc[key] <= na[key] * nb[key] * ncc[key] * (1 + 1e-12) + 1e-300:
                             fails.append(fail("submultiplicative3", f"ord={key}", ord=key, grp="sub"))
-    elif grp in ("large", "compmask"):
+    elif grp in ("large", "compmask", "xf"):
         m, n = case["m"], case["n"]
         mats_ = []
         if grp == "large":
@@ -242,13 +244,19 @@ def run_case(case, seed):
                     Uq_, Vq_ = G.unitary("hh", m, fill, 1), G.unitary("hh", n, fill, 2)
                     B_ = G.with_spectrum(Uq_, [1.0 - 0.01 * t for t in range(min(m, n))], Vq_)
                 mats_.append(B_)
+        elif grp == "xf":
+            for nm_ in xf_names(m, n):
+                mats_.append(xf_build(nm_, m, n, fill))
         else:
             for mask in G.COMPONENT_MASKS:
                 B_ = fill.quat_int(m, n, -4, 4).astype(float)
                 B_[B_ == 0] = 3.0
                 mats_.append(G.apply_component_mask(B_, mask))
         for A in mats_:
-            Aq = G.to_quat(A)
+            lay_ = "C"
+            if isinstance(A, tuple):
+                A, lay_ = A
+            Aq = relayout(G.to_quat(A), lay_)
             sv = O.svals(A)
             exp2, expF = float(sv[0]), O.fro(A)
             mod = O.qabs(A)
